@@ -12,6 +12,7 @@ FIX_COMMITS = [
     "35edf887 van_der_waals non-isochoric I2",
     "b25de9f1 axisymmetric integral form on None (zero) blocks of mixed-field hessians",
     "bbcf0668 mesh rotate rounded integer point arrays",
+    "0e921dcb axisymmetric value-value integral form (mass matrix of axisymmetric bodies)",
 ]
 CHECKS = {
     "C01": {
